@@ -519,3 +519,123 @@ Proof.
     + rewrite CS. destruct (forallb copyable fields); simpl; auto; try (rewrite WA; auto).
     + intros _ D. rewrite DS in D. apply andb_prop in D. tauto.
 Qed.
+
+(* ---------------------------------------------------------------- the drop-insertion pass *)
+(* specification-side predicate: an out-port that is a value of a type needing a drop and has no link *)
+Definition port_needs (p : port) : bool :=
+  Nat.eqb (p_links p) 0 && match p_kind p with KValue t => requires_drop t | KOther => false end.
+
+Definition drops_at (i j : nat) (ds : list drop) : list drop :=
+  filter (fun d => Nat.eqb (d_node d) i && Nat.eqb (d_port d) j) ds.
+
+Definition expected_drop (i j : nat) (p : port) : list drop :=
+  if port_needs p then match p_kind p with KValue t => [mkDrop i j t] | KOther => [] end else [].
+
+Lemma port_gets_drop_spec : forall p, port_gets_drop p = port_needs p.
+Proof.
+  intros [k l]. unfold port_gets_drop, port_needs, gen_insert_drops_cond. simpl.
+  destruct k; simpl; rewrite ?andb_true_r, ?andb_false_r; reflexivity.
+Qed.
+
+Lemma drops_at_app : forall i j a b, drops_at i j (a ++ b) = drops_at i j a ++ drops_at i j b.
+Proof. intros. unfold drops_at. apply filter_app. Qed.
+
+Lemma drops_at_none : forall i j ds, (forall d, In d ds -> d_node d <> i \/ d_port d <> j) -> drops_at i j ds = [].
+Proof.
+  induction ds as [|d r IH]; simpl; intros H; auto.
+  destruct (H d (or_introl eq_refl)) as [N|N].
+  - apply Nat.eqb_neq in N. rewrite N. simpl. apply IH. intros; apply H; auto.
+  - apply Nat.eqb_neq in N. rewrite N, andb_false_r. apply IH. intros; apply H; auto.
+Qed.
+
+Lemma drop_port_drops : forall ni pi p, snd (drop_port ni pi p) = expected_drop ni pi p.
+Proof.
+  intros. unfold drop_port, expected_drop. rewrite port_gets_drop_spec. destruct (port_needs p); reflexivity.
+Qed.
+
+Lemma drop_ports_range : forall ps ni pi d, In d (snd (drop_ports ni pi ps)) -> d_node d = ni /\ pi <= d_port d.
+Proof.
+  induction ps as [|p r IH]; simpl; intros ni pi d H; [contradiction|].
+  pose proof (drop_port_drops ni pi p) as DP.
+  destruct (drop_port ni pi p) as [p' dd]. destruct (drop_ports ni (S pi) r) as [r' ds] eqn:E. simpl in *.
+  apply in_app_or in H. destruct H as [H|H].
+  - subst dd. unfold expected_drop in H. destruct (port_needs p); [|contradiction].
+    destruct (p_kind p); [|contradiction]. destruct H as [H|[]]. subst d. simpl. lia.
+  - specialize (IH ni (S pi) d). rewrite E in IH. destruct (IH H). lia.
+Qed.
+
+Lemma drop_ports_nth : forall ps ni pi j p, nth_error ps j = Some p ->
+  exists p', nth_error (fst (drop_ports ni pi ps)) j = Some p' /\ p_kind p' = p_kind p /\
+    drops_at ni (pi + j) (snd (drop_ports ni pi ps)) = expected_drop ni (pi + j) p /\
+    p_links p' = p_links p + List.length (expected_drop ni (pi + j) p).
+Proof.
+  induction ps as [|q r IH]; intros ni pi j p H; [destruct j; discriminate|].
+  simpl. pose proof (drop_port_drops ni pi q) as DP.
+  pose proof (drop_ports_range r ni (S pi)) as RG.
+  destruct (drop_port ni pi q) as [q' dd] eqn:EQ. destruct (drop_ports ni (S pi) r) as [r' ds] eqn:E. simpl in *.
+  destruct j as [|j]; simpl in H.
+  - inversion H; subst q. exists q'. simpl. rewrite Nat.add_0_r, drops_at_app.
+    rewrite (drops_at_none ni pi ds) by (intros d Hd; destruct (RG d Hd); right; lia).
+    rewrite app_nil_r. subst dd.
+    assert (SELF : drops_at ni pi (expected_drop ni pi p) = expected_drop ni pi p).
+    { unfold expected_drop. destruct (port_needs p); auto. destruct (p_kind p); auto.
+      unfold drops_at. simpl. rewrite !Nat.eqb_refl. reflexivity. }
+    unfold drop_port in EQ. rewrite port_gets_drop_spec in EQ. unfold expected_drop in *.
+    destruct (port_needs p) eqn:PN; inversion EQ; subst; simpl; repeat split; auto.
+    Show.
+    + unfold port_needs in PN. destruct (p_kind p); [|rewrite andb_false_r in PN; discriminate].
+      simpl. lia.
+    + lia.
+  - specialize (IH ni (S pi) j p H). rewrite E in IH. simpl in IH.
+    destruct IH as [p' [N [K [DA LK]]]]. exists p'. simpl.
+    replace (pi + S j) with (S pi + j) by lia. repeat split; auto.
+    rewrite drops_at_app.
+    rewrite (drops_at_none ni (S pi + j) dd); auto.
+    intros d Hd. subst dd. unfold expected_drop in Hd. destruct (port_needs q); [|contradiction].
+    destruct (p_kind q); [|contradiction]. destruct Hd as [Hd|[]]. subst d. simpl. right. lia.
+Qed.
+
+Lemma drop_nodes_range : forall ns ni d, In d (snd (drop_nodes ni ns)) -> ni <= d_node d.
+Proof.
+  induction ns as [|n r IH]; simpl; intros ni d H; [contradiction|].
+  pose proof (drop_ports_range (n_out n) ni 0) as RG.
+  destruct (gen_insert_drops_skip_node (n_funcdefn n)).
+  - destruct (drop_nodes (S ni) r) as [r' ds] eqn:E. simpl in H. specialize (IH (S ni) d). rewrite E in IH. 
+    specialize (IH H). lia.
+  - destruct (drop_ports ni 0 (n_out n)) as [ps dd]. destruct (drop_nodes (S ni) r) as [r' ds] eqn:E. simpl in *.
+    apply in_app_or in H. destruct H as [H|H].
+    + destruct (RG d H). lia.
+    + specialize (IH (S ni) d). rewrite E in IH. specialize (IH H). lia.
+Qed.
+
+Lemma drop_nodes_nth : forall ns ni i n j p,
+  nth_error ns i = Some n -> nth_error (n_out n) j = Some p ->
+  exists n' p', nth_error (fst (drop_nodes ni ns)) i = Some n' /\ n_funcdefn n' = n_funcdefn n /\
+    nth_error (n_out n') j = Some p' /\ p_kind p' = p_kind p /\
+    let exp := if n_funcdefn n then [] else expected_drop (ni + i) j p in
+    drops_at (ni + i) j (snd (drop_nodes ni ns)) = exp /\ p_links p' = p_links p + List.length exp.
+Proof.
+  induction ns as [|m r IH]; intros ni i n j p Hn Hp; [destruct i; discriminate|].
+  simpl. pose proof (drop_nodes_range r (S ni)) as RG.
+  pose proof (drop_ports_range (n_out m) ni 0) as RP.
+  destruct i as [|i]; simpl in Hn.
+  - inversion Hn; subst m. rewrite Nat.add_0_r. unfold gen_insert_drops_skip_node.
+    destruct (n_funcdefn n) eqn:FD.
+    + destruct (drop_nodes (S ni) r) as [r' ds] eqn:E. simpl in *.
+      exists n, p. rewrite FD. repeat split; auto.
+      * apply drops_at_none. intros d Hd. specialize (RG d Hd). left. lia.
+      * simpl. lia.
+    + destruct (drop_ports_nth (n_out n) ni 0 j p Hp) as [p' [N [K [DA LK]]]].
+      destruct (drop_ports ni 0 (n_out n)) as [ps dd]. destruct (drop_nodes (S ni) r) as [r' ds] eqn:E. simpl in *.
+      exists (mkNode false ps), p'. simpl. repeat split; auto.
+      rewrite drops_at_app, DA. rewrite (drops_at_none ni j ds); [apply app_nil_r|].
+      intros d Hd. specialize (RG d Hd). left. lia.
+  - destruct (IH (S ni) i n j p Hn Hp) as [n' [p' [N [F [NP [K [DA LK]]]]]]].
+    replace (ni + S i) with (S ni + i) by lia.
+    destruct (gen_insert_drops_skip_node (n_funcdefn m)).
+    + destruct (drop_nodes (S ni) r) as [r' ds] eqn:E. simpl in *. exists n', p'. repeat split; auto.
+    + destruct (drop_ports ni 0 (n_out m)) as [ps dd]. destruct (drop_nodes (S ni) r) as [r' ds] eqn:E. simpl in *.
+      exists n', p'. repeat split; auto. rewrite drops_at_app.
+      rewrite (drops_at_none (S (ni + i)) j dd); auto.
+      intros d Hd. destruct (RP d Hd). left. lia.
+Qed.
